@@ -209,8 +209,9 @@ def oracles_frame(line, real_out):
 
 def gen_frame(rng, n, profile):
     lens = list(range(0, 300)) + [510, 511, 512, 513, 999, 1000, 1001, 4095, 4096]
-    if profile == 'all-lengths':
-        for ln in range(65536):
+    if profile.startswith('all-lengths'):
+        k, K = map(int, profile.split(':')[1].split('/')) if ':' in profile else (0, 1)
+        for ln in range(k, 65536, K):
             yield f'framegen|{rng.randrange(256)}|{rng.randrange(256)}|{ln}|{rng.randrange(1 << 30)}|{rng.choice([0, 0, 0, 1, 2])}'
         return
     for ln in lens:
@@ -326,16 +327,19 @@ def oracles_ck(line, real_out):
 
 
 def gen_ck(rng, n, profile):
-    if profile == 'all-states':
-        for a in range(256):
+    if profile.startswith('all-states'):
+        k, K = map(int, profile.split(':')[1].split('/')) if ':' in profile else (0, 1)
+        for a in range(k, 256, K):
             yield f'ckrow|{a}'
+        if k:
+            return
     for a in range(256):
         for b in (0, 1, 2, 127, 128, 200, 254, 255):
             yield f'ck|{a}|{b}'
-    for _ in range(16 if profile != 'all-states' else 64):
+    for _ in range(16 if not profile.startswith('all-states') else 64):
         yield f'ckm|{rng.randrange(256)}|{rng.randrange(256)}'
     # long runs: the running sums must stay reduced however many bytes go into one object
-    longs = [5802, 5803, 5804, 6000, 8200, 20000, 65535, 65536, 100000] + ([300000, 1000000, 3000000] if profile == 'all-states' else [])
+    longs = [5802, 5803, 5804, 6000, 8200, 20000, 65535, 65536, 100000] + ([300000, 1000000, 3000000] if profile.startswith('all-states') else [])
     for ln in longs:
         for mode in (0, 1, 2):
             yield f'ckgen|{ln}|{rng.randrange(1 << 30)}|{mode}'
